@@ -446,7 +446,8 @@ def _load_chunk(jobs):
 
 def trace_jobs(ctx, rnd, n_random):
     texts = []
-    for path in ("/repo/tests/zemax_files/lens1.zmx", "/repo/tests/zemax_files/lens2.zmx"):
+    _repo = os.environ.get("VERIF_REPO") or "/repo"
+    for path in (_repo + "/tests/zemax_files/lens1.zmx", _repo + "/tests/zemax_files/lens2.zmx"):
         raw = open(path, "rb").read()
         texts.append(("repo:" + os.path.basename(path), raw.decode("utf-16" if raw[:2] in (b"\xff\xfe", b"\xfe\xff") else "utf-8")))
     for i in range(n_random):
